@@ -1497,4 +1497,51 @@ parses to the tree it renders. -/
 theorem parse_tk {t : PExp} {ts : List Tok} {items : List Item} (h : Tk t ts items) : parseToks ts = .ok t := by
   simp [parseToks, parseRaw_tk h, tk_valid h]
 
+/-! ### the word a rendering may begin with -/
+
+/-- the word the leftmost leaf of a tree is written with (`none`: a number, a string, an array, a sign) -/
+def headName : PExp → Option String
+  | .var n => some n
+  | .bool b => some (if b then "true" else "false")
+  | .cvar n _ | .access n _ | .call n _ | .block n _ | .scoped n _ _ _ => some n
+  | .bin _ l _ => headName l
+  | .un .not _ => some "not"
+  | _ => none
+
+/-- a rendering that begins with a word begins with the word of its leftmost leaf -/
+theorem tk_head_word {t : PExp} {ts : List Tok} {items : List Item} : Tk t ts items → ∀ (w : String) (tl : List Tok),
+    ts = .word w :: tl → headName t = some w
+  | .atom ha, w, tl, h => by
+    cases ha <;> first | (cases h; done) | (injection h with h1 _; injection h1 with h1; subst h1; simp [headName])
+  | .paren _, w, tl, h => by cases h
+  | @Tk.un u e ts utok hin hm, w, tl, h => by
+    injection h with h1 _
+    subst h1
+    cases u with
+    | neg => simp [unToks] at hm
+    | not =>
+      simp only [unToks, List.mem_cons, List.not_mem_nil, or_false] at hm
+      rcases hm with hm | hm
+      · injection hm with hm; subst hm; simp [headName]
+      · cases hm
+  | @Tk.bin o l r L R il ir optok hl hr _ _ hm, w, tl, h => by
+    obtain ⟨tk, tl', ht, _⟩ := tk_head hl
+    rw [ht] at h
+    simp only [List.cons_append] at h
+    injection h with h1 _
+    subst h1
+    exact tk_head_word hl w tl' ht
+  | .imul hj _ _, w, tl, h => by
+    obtain ⟨tk, tl', ht, hk⟩ := juxt_head hj
+    rw [ht] at h
+    simp only [List.cons_append] at h
+    injection h with h1 _
+    rcases hk with ⟨s, rfl⟩ | ⟨s, rfl⟩ | rfl <;> cases h1
+  | .call _ _ _, w, tl, h => by injection h with h1 _; injection h1 with h1; subst h1; rfl
+  | .arr _, w, tl, h => by cases h
+  | .cvar _, w, tl, h => by injection h with h1 _; injection h1 with h1; subst h1; rfl
+  | .access _ _, w, tl, h => by injection h with h1 _; injection h1 with h1; subst h1; rfl
+  | .block _ _ _ _ _, w, tl, h => by injection h with h1 _; injection h1 with h1; subst h1; rfl
+  | .scoped _ _ _ _ _ _, w, tl, h => by injection h with h1 _; injection h1 with h1; subst h1; rfl
+
 end Rooc.Syntax.Proofs
